@@ -344,7 +344,11 @@ fn raw_route(l: &Locale) -> Locale {
 fn reroute(l: &Locale, r: &mut Rng) -> (Locale, &'static str) {
     match r.below(7) {
         6 => (raw_route(l), ROUTE_RAW),
-        0 => (l.to_string().parse().unwrap_or_else(|_| l.clone()), "reparse"),
+        0 => {
+            let t = l.to_string();
+            crate::stream::hostile_neighbour(t.as_bytes());
+            (t.parse().unwrap_or_else(|_| l.clone()), "reparse")
+        }
         1 => {
             let up = l.to_string().to_ascii_uppercase().replace('-', "_");
             (up.parse().unwrap_or_else(|_| l.clone()), "parse-uppercase-underscore")
